@@ -1461,10 +1461,18 @@ class World(object):
         out = self.snap.get("output")
         L = self.ledger
         spec_out = self.p.get("output") or []
-        if self.status == "succeeded" and not self.accepted_rerun:
-            leaves = L.leaves()
+        failed_plain = (self.status == "failed" and not L.runtime_errors and not self.fault_fired
+                        and not self.o.get("data_fault") and not self.forced_failed and not self.cancel_req
+                        and not self.p.get("fault_info"))
+        if (self.status == "succeeded" or failed_plain) and not self.accepted_rerun:
+            pairs = L.leaves(with_seq=True)
+            if failed_plain and self.last_done is not None and not any(r is self.last_done.ref for _, r in pairs):
+                # the execution whose report completed the workflow is terminal whatever it decided
+                pairs = sorted(pairs + [(getattr(self.last_done, "seq", 10 ** 9), self.last_done.ref)], key=lambda e: e[0])
+            leaves = [r for _, r in pairs]
             if not leaves:
                 return
+            self.bump("probe_output_checked_%s" % self.status)
             fwd = None
             for r in leaves:
                 fwd = r if fwd is None else L.merge_ctx(fwd, r)
